@@ -7,10 +7,10 @@ package main
 
 import (
 	"fmt"
-	"sort"
 	"go/constant"
 	"go/types"
 	"math/big"
+	"sort"
 	"strings"
 
 	"golang.org/x/tools/go/ssa"
@@ -165,17 +165,114 @@ func (ex *Exec) feltMul(a, b *Term, q *big.Int) *Term {
 	if b.IsConst() && b.ival.Cmp(bi(64)) <= 0 {
 		return ex.modQ(ts.Mul(a, b), q)
 	}
-	// associative-commutative normal form: a product is the sorted multiset of its atomic factors
+	// signs and zero alternatives are pulled out of products: every factor is written as
+	// [nz] * (-1)^[s] * base, where merged values ite(c, -y, y), ite(c, 0, y) contribute conditions;
+	// the product of the bases is negated when an odd number of sign conditions hold and is zero
+	// unless all factors are non-zero alternatives.
 	var fac []*Term
-	for _, x := range []*Term{a, b} {
-		if strings.HasPrefix(x.op, "uf:fprod") {
-			fac = append(fac, x.args...)
+	var signs, nzs []*Term
+	tt, ff := ts.Bool(true), ts.Bool(false)
+	var sdec func(x *Term, depth int) (*Term, *Term, *Term)
+	sdec = func(x *Term, depth int) (*Term, *Term, *Term) {
+		if x.isZero() {
+			return nil, ff, ff
+		}
+		if y, ok := ex.feltNegOf[x.id]; ok {
+			b, c, z := sdec(y, depth)
+			return b, ts.Not(c), z
+		}
+		if x.op == "ite" && depth < 6 {
+			b1, c1, z1 := sdec(x.args[1], depth+1)
+			b2, c2, z2 := sdec(x.args[2], depth+1)
+			switch {
+			case b1 == nil && b2 == nil:
+				return nil, ff, ff
+			case b1 == nil:
+				return b2, c2, ts.And(ts.Not(x.args[0]), z2)
+			case b2 == nil:
+				return b1, c1, ts.And(x.args[0], z1)
+			case b1 == b2:
+				return b1, ts.Ite(x.args[0], c1, c2), ts.Ite(x.args[0], z1, z2)
+			}
+		}
+		return x, ff, tt
+	}
+	zeroProduct := false
+	split := func(x *Term) {
+		b, c, z := sdec(x, 0)
+		if b == nil {
+			zeroProduct = true
+			return
+		}
+		if c != ff {
+			signs = append(signs, c)
+		}
+		if z != tt {
+			nzs = append(nzs, z)
+		}
+		// associative-commutative normal form: a product is the sorted multiset of its atomic factors
+		if strings.HasPrefix(b.op, "uf:fprod") {
+			fac = append(fac, b.args...)
 		} else {
-			fac = append(fac, x)
+			fac = append(fac, b)
 		}
 	}
+	split(a)
+	split(b)
+	if zeroProduct {
+		return ts.Int64(0)
+	}
+	if len(signs) > 0 || len(nzs) > 0 {
+		neg := ff
+		for _, c := range signs {
+			neg = ts.Or(ts.And(neg, ts.Not(c)), ts.And(ts.Not(neg), c))
+		}
+		base := fac[0]
+		for _, f := range fac[1:] {
+			base = ex.feltMul(base, f, q)
+		}
+		res := base
+		if neg != ff {
+			res = ts.Ite(neg, ex.feltNeg(base, q), base)
+		}
+		if len(nzs) > 0 {
+			res = ts.Ite(ts.And(nzs...), res, ts.Int64(0))
+		}
+		return res
+	}
 	sort.Slice(fac, func(i, j int) bool { return fac[i].id < fac[j].id })
-	return ex.feltUF(fmt.Sprintf("fprod%d", len(fac)), q, fac...)
+	res := ex.feltUF(fmt.Sprintf("fprod%d", len(fac)), q, fac...)
+	if len(fac) == 2 && fac[0] == fac[1] && !ex.feltSquareSeen[res.id] {
+		// remember squares (used by the Sqrt contract)
+		ex.feltSquareSeen[res.id] = true
+		sq := feltSquare{sq: res, y: fac[0], q: q}
+		ex.feltSquares = append(ex.feltSquares, sq)
+		qt := ex.ts.Int(q)
+		z0 := ex.ts.Int64(0)
+		for _, s := range ex.feltSqrts {
+			if s.q.Cmp(q) != 0 {
+				continue
+			}
+			same := ex.ts.Eq(res, s.x)
+			ex.assume(ex.ts.Implies(same, ex.ts.And(s.isSq, ex.ts.Or(ex.ts.Eq(s.r, sq.y), ex.ts.Eq(ex.ts.Add(s.r, sq.y), qt), ex.ts.And(ex.ts.Eq(s.r, z0), ex.ts.Eq(sq.y, z0))))))
+		}
+	}
+	return res
+}
+
+// feltNeg is the field negation; the result remembers its operand so that products can pull the
+// sign out.
+func (ex *Exec) feltNeg(a *Term, q *big.Int) *Term {
+	if y, ok := ex.feltNegOf[a.id]; ok {
+		return y
+	}
+	r := ex.modQ(ex.ts.Neg(a), q)
+	if !r.IsConst() && !a.IsConst() {
+		if _, dup := ex.feltNegOf[r.id]; !dup {
+			ex.feltNegOf[r.id] = a
+		}
+	}
+	return r
 }
 
 func (ex *Exec) feltInv(a *Term, q *big.Int) *Term {
@@ -185,6 +282,10 @@ func (ex *Exec) feltInv(a *Term, q *big.Int) *Term {
 			return a
 		}
 		return ts.Int(new(big.Int).ModInverse(a.ival, q))
+	}
+	// inversion distributes over alternatives with a constant branch
+	if a.op == "ite" && (a.args[1].IsConst() || a.args[2].IsConst()) {
+		return ts.Ite(a.args[0], ex.feltInv(a.args[1], q), ex.feltInv(a.args[2], q))
 	}
 	return ts.Ite(ts.Eq(a, ts.Int64(0)), ts.Int64(0), ex.feltUF("finv", q, a))
 }
@@ -197,6 +298,15 @@ func (ex *Exec) feltByte(v *Term, n, i int) *Term {
 		ex.byteProv[b.id] = byteProv{src: v, n: n, i: i}
 	}
 	return b
+}
+
+type feltSquare struct {
+	sq, y *Term
+	q     *big.Int
+}
+type feltSqrt struct {
+	x, r, isSq *Term
+	q          *big.Int
 }
 
 // byteProv records that a term is byte i of the n-byte big-endian encoding of src (0 <= src < 256^n).
@@ -264,7 +374,7 @@ func (ex *Exec) feltMethod(st *PState, fn *ssa.Function, args []Value) Value {
 	case "Sub":
 		return set(ex.modQ(ts.Sub(L(1), L(2)), q))
 	case "Neg":
-		return set(ex.modQ(ts.Neg(L(1)), q))
+		return set(ex.feltNeg(L(1), q))
 	case "Double":
 		return set(ex.modQ(ts.Mul(ts.Int64(2), L(1)), q))
 	case "Mul":
@@ -387,6 +497,16 @@ func (ex *Exec) feltMethod(st *PState, fn *ssa.Function, args []Value) Value {
 		// contract: r*r = x when x is a square
 		ex.assume(ts.Implies(isSq, ts.Eq(ex.feltMul(r, r, q), x)))
 		ex.assume(ts.Implies(ts.Eq(x, z0), ts.Eq(r, z0)))
+		// field facts about known squares y*y: if y*y = x then x is a square and its root is y or -y
+		qt := ts.Int(q)
+		for _, sq := range ex.feltSquares {
+			if sq.q.Cmp(q) != 0 {
+				continue
+			}
+			same := ts.Eq(sq.sq, x)
+			ex.assume(ts.Implies(same, ts.And(isSq, ts.Or(ts.Eq(r, sq.y), ts.Eq(ts.Add(r, sq.y), qt), ts.And(ts.Eq(r, z0), ts.Eq(sq.y, z0))))))
+		}
+		ex.feltSqrts = append(ex.feltSqrts, feltSqrt{x: x, r: r, isSq: isSq, q: q})
 		old := L(0)
 		ex.store(st, recv, ts.Ite(isSq, r, old))
 		return ex.mergeVal(isSq, recv, &PtrV{})
